@@ -80,3 +80,18 @@ def run_rejects(v, cases, name):
             v.violation(r.case, 'the macro panicked instead of reporting a diagnostic')
         else:
             v.violation(r.case, 'the request was not refused by educe; it only fails later in the compiler: %s' % '; '.join((d['code'] or '') + ' ' + d['msg'][:120] for d in r.errors()[:2]))
+
+
+RAW = {'f0': 'r#type', 'f1': 'r#match', 'f2': 'r#fn', 'f3': 'r#loop', 'f4': 'r#struct'}
+
+
+def rawify(case):
+    """the same case with its named fields spelled as raw identifiers (f0 -> r#type, ...); None if the case has no named field"""
+    import re
+    from ..core import Case
+    if not re.search(r'\bf[0-4]\b', case.body):
+        return None
+    body = re.sub(r'(?<![A-Za-z0-9_#.])f([0-4])\b(?!\()', lambda m: RAW['f' + m.group(1)], case.body)
+    spec = dict(case.spec)
+    spec['raw_identifiers'] = True
+    return Case(case.key + '|raw', body, spec, case.expect, case.run, case.depth + 1, case.tags)
